@@ -116,3 +116,9 @@ C18S="table.NewAPIPolicyFromTableStruct -> newStatementFromApiStruct for a state
 add("C18.statement_actions","VH_c18_statement_roundtrip",SRV,sc+["server/c18.go"],expect_reach=["end"],pins={"aspath_len_op":1,"community_count_op":0,"origin_eq":0,"set_origin":0},bounds=C18S+"3 dispositions x MED action from a listed set of 8 texts x AS prepend (none / 3 texts x symbolic repeat) x symbolic LOCAL_PREF action and numeric conditions; origin fields and comparison operators fixed")
 add("C18.statement_conditions","VH_c18_statement_roundtrip",SRV,sc+["server/c18.go"],expect_reach=["end"],pins={"disposition":1,"med":0,"prepend_as":0},bounds=C18S+"AS_PATH length and community count conditions (4 operators each x symbolic value) x ORIGIN condition (4) x ORIGIN action (4) x symbolic LOCAL_PREF / MED conditions; other actions fixed")
 add("C17.server_rtc","VH_c17_server_rtc",SRV,sc+["server/c17.go"],{"params":{"steps":3},"unwind":2200},{"params":{"steps":4},"unwind":2200},expect_reach=["advertised","withheld"],fixed_clock=True,bounds="real BgpServer.handleFSMMessage/processRTCMembership: one VPN route with one target learned before or after a history of 3 (quick) / 4 membership announcements/withdrawals from an RTC peer (target of the route or an unrelated one, 2 origin AS values)")
+C15B="metamorphic: old policy + 2 routes (AS_PATH length 1..3 each) + policy replaced + soft reset %s versus a fresh real BgpServer under the new policy; policies = one statement 'AS_PATH length eq/ge/le symbolic threshold -> reject | accept and set attribute' or none, default accept; Loc-RIB and the target's view compared, reset repeated"
+for d,exp in (("in",0),("out",1)):
+    for o in range(4):
+        for n in range(4):
+            if o==0 and n==0: continue
+            add("C15.soft_reset_%s.o%dn%d"%(d,o,n),"VH_c15_soft_reset",SRV,sc+["server/c15.go"],{"params":{"export":exp},"unwind":2200,"harness_s":600},{"params":{"export":exp},"unwind":2200,"harness_s":1200},expect_reach=["end"],fixed_clock=True,pins={"old_op":o,"new_op":n},bounds=C15B%("in (import policy)" if exp==0 else "out (export policy)")+"; this instance: old operator %d, new operator %d (0 = no policy)"%(o,n))
